@@ -65,12 +65,12 @@ def fv_unit(prop, tier):
     for i, op in enumerate(OPS):
         d = S + ['-DOP=%d' % i]
         # vin: cap n0 pre init[capmax] arg arg2 idx
-        for cap, n0, pre, idx in ((3, 2, 0, 0), (3, 3, 0, 3), (2, 2, 1, 1), (0, 0, 0, 0), (1, 1, 0, 1), (3, 2, 0, 2)):
+        for cap, n0, pre, idx in ((3, 2, 0, 0), (3, 3, 0, 3), (2, 2, 1, 1), (0, 0, 0, 0), (1, 1, 0, 1), (3, 2, 0, 2), (3, 3, 0, 0), (3, 3, 0, 1)):
             if op == 'INDEX_WRITE' and not idx < n0 - pre:
                 continue
             if op == 'EMPLACE_POS_ALIAS' and n0 - pre < 1:
                 continue
-            corpus.append((d, [cap, n0, pre] + [5, 7, 9, 11][:capmax] + [42, 43, idx]))
+            corpus.append((d, [cap, n0, pre] + [5, 700, 90000, 11][:capmax] + [42, 43, idx]))      # values that differ above their lowest byte
     for sq, v in (((0, 0, 2), [2, 0, 5, 0, 7, 0, 0]), ((0, 3, 1), [2, 0, 5, 0, 7, 0, 0]), ((5, 6), [1, 0, 5, 0, 9]), ((1, 0), [0, 0, 0, 0, 1])):
         corpus.append((['-DMODE_SEQ', '-DNOPS=%d' % len(sq), '-DSEQ_OPS={%s}' % ','.join(str(x) for x in sq), '-DCAPMAX=%d' % scap] + c07, v))
     if prop == 'C06':
